@@ -1269,6 +1269,16 @@ func run(c *drv.Ctx) error {
 					return
 				}
 			}
+			if wi == 1 {
+				sizes := [][2]int{{1000, 1000}, {2100, 2000}, {1001, 1001}}
+				if !c.Quick() {
+					sizes = append(sizes, [2]int{999, 999}, [2]int{3000, 3000}, [2]int{2500, 1000}, [2]int{1, 1}, [2]int{10001, 10000}, [2]int{1500 + int(seeds[0]%700), 1000 + int(seeds[0]%400)})
+				}
+				if err := bulk(c, w, sizes); err != nil {
+					errs <- fmt.Errorf("bulk intervals: %v; stderr: %s", err, drv.Trunc(drv.FatalInStderr(w.Stderr()), 1500))
+					return
+				}
+			}
 			for i := range hch {
 				rr := rand.New(rand.NewSource(seeds[i]))
 				if err := runHistory(c, w, rr, fmt.Sprintf("h%d", i), 70+rr.Intn(50), nkeys, final, mid); err != nil {
